@@ -10,39 +10,15 @@ package storage
 //@ -- prefix-free among all prefixes of badger_graph.go ("TOPOLOGY" vs "TRANSACTION": 'O' != 'R'; "SNAPTOPO" vs "SNAPSHOT": 'T' != 'S'; no
 //@ -- prefix is an initial segment of "TOPOLOGY"/"SNAPTOPO"/"SNAPSHOT" and none extends them), the payloads have fixed widths (8, 32, 32+8+32).
 //@ -- TopoKeyId(o) is meaningful for 0 <= o < 2^64 only (the be64 encoding). Every topology key carries the prefix graphPrefixTopology.
-//@ uninterp TopoKeyId(o mathint) mathint
-//@ uninterp SnapTopoKeyId(h mathint) mathint
-//@ uninterp SnapshotKeyId(n mathint, r mathint, h mathint) mathint
-//@ axiom forall o mathint :: {TopoKeyId(o)} 0 <= o && o < 18446744073709551616 ==> keykind(TopoKeyId(o)) == 7 && keynum(TopoKeyId(o)) == o && badger.keypfx(TopoKeyId(o), strkey(graphPrefixTopology)) == 0
-//@ axiom forall h mathint :: {SnapTopoKeyId(h)} keykind(SnapTopoKeyId(h)) == 8 && keyhid(SnapTopoKeyId(h)) == h && badger.keypfx(SnapTopoKeyId(h), strkey(graphPrefixTopology)) != 0
-//@ axiom forall n, r, h mathint :: {SnapshotKeyId(n, r, h)} keykind(SnapshotKeyId(n, r, h)) == 9
-//@ -- byte order of the fixed-width big-endian keys of ONE prefix == numeric order (binary.BigEndian: the most significant byte comes first)
-//@ axiom forall x, y mathint :: {badger.keylt(TopoKeyId(x), TopoKeyId(y))} 0 <= x && x < 18446744073709551616 && 0 <= y && y < 18446744073709551616 ==> (badger.keylt(TopoKeyId(x), TopoKeyId(y)) <==> x < y)
-//@ spec TP(o mathint) mathint = TopoKeyId(o)
-//@ spec STK(h crypto.Hash) mathint = SnapTopoKeyId(kvval(h))
-//@ spec IsTopoKey(k mathint) bool = k == TopoKeyId(keynum(k)) && 0 <= keynum(k) && keynum(k) < 18446744073709551616
-
-//@ assume func graphTopologyKey
-//@   modifies nothing
-//@   ensures fresh(result) && len(result) > 0 && kvkey(result) == TP(order)
-//@ -- graphTopologyOrder slices key[8:] and reads 8 bytes: it panics on anything shorter than a topology key
-//@ assume func graphTopologyOrder
-//@   requires [topo-key] IsTopoKey(kvkey(key))
-//@   modifies nothing
-//@   ensures result == keynum(kvkey(key))
-//@ assume func graphSnapTopologyKey
-//@   modifies nothing
-//@   ensures fresh(result) && len(result) > 0 && kvkey(result) == STK(hash)
-//@ assume func graphSnapshotKey
-//@   modifies nothing
-//@   ensures fresh(result) && len(result) > 0 && kvkey(result) == SnapshotKeyId(kvval(nodeId), round, kvval(snap))
+//@ -- (TopoKeyId kind 9, SnapTopoKeyId kind 10, SnapshotKeyId = SnapKeyId kind 8, TP, STK, IsTopoKey, the keylt order axiom and the constructors
+//@ -- graphTopologyKey / graphTopologyOrder / graphSnapTopologyKey / graphSnapshotKey: zz_contracts_keyspace_verif.go)
 
 //@ -- ═════════ representation invariants of the snapshots DB (requires of the readers; established and preserved by writeTopology, the
 //@ -- only function that Sets a key with one of the two prefixes) ═════════
 //@ -- TopoOK: every entry whose key starts with "TOPOLOGY" is a topology key TOPOLOGY|be64(o).
 //@ spec TopoOK(t badger.Txn) bool = forall k mathint :: {badger.kvget(t, k)} badger.kvget(t, k) != 0 && badger.keypfx(k, strkey(graphPrefixTopology)) == 0 ==> IsTopoKey(k)
 //@ -- SnapTopoOK: the value of every SNAPTOPO entry is (the bytes of) a topology key.
-//@ spec SnapTopoOK(t badger.Txn) bool = forall k mathint :: {badger.kvget(t, k)} badger.kvget(t, k) != 0 && keykind(k) == 8 ==> IsTopoKey(badger.kvget(t, k))
+//@ spec SnapTopoOK(t badger.Txn) bool = forall k mathint :: {badger.kvget(t, k)} badger.kvget(t, k) != 0 && keykind(k) == 10 ==> IsTopoKey(badger.kvget(t, k))
 
 //@ -- At(t, o): id of the value stored at topology position o (the SNAPSHOT key of the snapshot), 0 = position free.
 //@ spec At(t badger.Txn, o mathint) mathint = badger.kvget(t, TP(o))
@@ -116,7 +92,7 @@ package storage
 //@ -- never leads to a return -- and both indices are written together: TOPOLOGY[o] = SNAPSHOT key of the snapshot, SNAPTOPO[payload
 //@ -- hash] = TOPOLOGY key of o. On an error of the second Set only TOPOLOGY[o] was buffered (the caller discards the transaction).
 //@ func writeTopology
-//@   property C35
+//@   property C35, C15
 //@   maypanic
 //@   requires txn != nil && snap != nil && snap.Snapshot != nil
 //@   requires [version] snap.Version == common.SnapshotVersionCommonEncoding -- PayloadHash panics otherwise; snapshots reach the store only after validation
@@ -128,10 +104,15 @@ package storage
 //@   ensures [partial] err != nil ==> badger.kvget(*txn, STK(PH(snap.Snapshot))) == old(badger.kvget(*txn, STK(PH(snap.Snapshot))))
 //@   ensures [keeps-topo-ok] old(TopoOK(*txn)) ==> TopoOK(*txn)
 //@   ensures [keeps-snaptopo-ok] old(SnapTopoOK(*txn)) ==> SnapTopoOK(*txn)
+//@   -- C15 (zz_contracts_c15_verif.go: writeSnapshot / WriteSnapshot), the same facts in the SnapId vocabulary of (*Snapshot).PayloadHash[deterministic-id]
+//@   ensures [c15-frame] forall k mathint :: {badger.kvget(*txn, k)} k != TopoKeyId(snap.TopologicalOrder) && k != SnapTopoKeyId(common.SnapId(snap.Snapshot)) ==> badger.kvget(*txn, k) == old(badger.kvget(*txn, k))
+//@   ensures [db] badger.txndb(*txn) == old(badger.txndb(*txn)) -- the transaction stays attached to its DB (needed by NewTransaction/Commit style callers: C15)
+//@   ensures [c15-written] err == nil ==> badger.kvget(*txn, TopoKeyId(snap.TopologicalOrder)) == KeyAsVal(SnapKeyId(kvval(snap.NodeId), snap.RoundNumber, common.SnapId(snap.Snapshot))) &&
+//@       badger.kvget(*txn, SnapTopoKeyId(common.SnapId(snap.Snapshot))) == KeyAsVal(TopoKeyId(snap.TopologicalOrder))
 
 //@ -- ═════════ the public observation points: one read-only transaction over the committed state each ═════════
 //@ spec DbTopoOK(d badger.DB) bool = forall k mathint :: {badger.dbget(d, k)} badger.dbget(d, k) != 0 && badger.keypfx(k, strkey(graphPrefixTopology)) == 0 ==> IsTopoKey(k)
-//@ spec DbSnapTopoOK(d badger.DB) bool = forall k mathint :: {badger.dbget(d, k)} badger.dbget(d, k) != 0 && keykind(k) == 8 ==> IsTopoKey(badger.dbget(d, k))
+//@ spec DbSnapTopoOK(d badger.DB) bool = forall k mathint :: {badger.dbget(d, k)} badger.dbget(d, k) != 0 && keykind(k) == 10 ==> IsTopoKey(badger.dbget(d, k))
 //@ spec DbAt(d badger.DB, o mathint) mathint = badger.dbget(d, TP(o))
 //@ spec DbStored(d badger.DB, o mathint) mathint = badger.dbget(d, badger.dbget(d, TP(o)))
 
@@ -158,12 +139,7 @@ package storage
 //@   ensures [position] result0 != nil ==> badger.dbget(*s.snapshotsDB, STK(hash)) == TP(result0.TopologicalOrder)
 //@   ensures [stored] result0 != nil ==> common.SnapSrc(result0.Snapshot) == DbStored(*s.snapshotsDB, result0.TopologicalOrder)
 
-//@ -- ASSUMED (not C35's subject; LastSnapshot only collects the transaction bodies with it): readTransaction reads through the transaction
-//@ -- and writes nothing visible. Its body is NOT verified here: on a Get error other than ErrKeyNotFound it dereferences the nil item
-//@ -- (known, DESIGN.md §6 "storage.readTransaction dereferences a nil item"), which is why it is not simply inlined.
-//@ assume func readTransaction
-//@   requires txn != nil
-//@   modifies nothing
+//@ -- readTransaction: ASSUMED (opaque) contract in zz_contracts_c15_verif.go (latent nil dereference on a Get error other than ErrKeyNotFound, DESIGN.md §6).
 
 //@ -- LastSnapshot seeds the node's counter after a restart (kernel.getTopologyCounter): the snapshot at the GREATEST occupied position.
 //@ -- maypanic: the explicit panics are the documented reactions to a store without any snapshot or a read error at startup.
